@@ -91,7 +91,7 @@ def run(ctx):
         if r.ok:
             raise Inconclusive("deviation config %s does not break any property: the model lost its teeth" % cfg)
         log("lead (TLC only): with deviation %s the model breaks %s" % (dev, r.violated))
-        leads[dev] = {"breaks": r.violated, "confirmed_on_real_daemon_by_key": keys}
+        leads[dev] = {"breaks": r.violated, "replay_keys": keys, "reproduced_on_real_daemon_this_run": False}
     ctx.notes["as_implemented_leads"] = leads
     # 2. the table, printed by TLC
     r = ctx.tlc("LookupdInputRows", "LookupdInput_rows.cfg", workers=1, timeout=300, label="rows")
@@ -148,6 +148,8 @@ def run(ctx):
     if B["traces"] > 0:
         ctx.validate_trace("LookupdInputTrace", "LookupdInputTrace.cfg", trace, B["traces"], "lookupd-input", timeout=1800)
 
+    for dev in leads:
+        leads[dev]["reproduced_on_real_daemon_this_run"] = any(k.strip() in _reported for k in leads[dev]["replay_keys"].split("/"))
     ctx.cov["distinct_nontrivial"] = len(distinct)
     ctx.cov["rule"] = ("evaluations = hostile steps executed against the real nsqlookupd child process (one table row spelling, "
                        "one command of a mutated stream, one HTTP request), each followed by the liveness and bystander "
